@@ -79,7 +79,7 @@ def run(ctx):
     if (jb, vb) != ("jit", "vm"):
         problems.append(("T", "back-end selection failed: processes report %s/%s" % (jb, vb)))
     known = {k["id"]: k for k in c.known_findings("C12")}
-    st = dict(pairs=0, differ=0, known=0, tie=0, tie_bad=0, cache_sensitive=0)
+    st = dict(pairs=0, differ=0, known=0, tie=0, tie_bad=0, cache_sensitive=0, pretouch_pairs=0)
     dist = {"regime": {}, "flag_bit_set": {b: 0 for b in FLAGBITS}, "result": {}}
     seen_known = {}
     viol = []
@@ -88,6 +88,15 @@ def run(ctx):
         dist["regime"][regime] = dist["regime"].get(regime, 0) + 1
         jr, vr, m = jit.get(cid, {}), vm.get(cid, {}), model.get(cid, {})
         for key, rj in jr.items():
+            if key.startswith("Q:"):
+                # after Pretouch with compile options (omit-null / inline depth / recursive depth) both back ends must still agree
+                st["pretouch_pairs"] += 1
+                rv = vr.get(key)
+                if rv is None or not ((rj[0] != "ok" and rv[0] != "ok") or rj == rv):
+                    viol.append(("pretouch", cid, "after Pretouch with compile options (EncOnlyOmitNull/MaxInlineDepth/RecursiveDepth = %s) JIT and interpreter differ: jit %s / vm %s"
+                                 % (key[2:], L.show(rj), L.show(rv)),
+                                 dict(L.case_lines(d, cid), pretouch=key[2:], jit=rj[:2], vm=(rv or ["missing"])[:2], features=sorted(feats))))
+                continue
             if not key.startswith("R:"):
                 continue
             fl = int(key[2:])
@@ -129,7 +138,7 @@ def run(ctx):
                                  dict(L.case_lines(d, cid), flags=fl, backend=who, impl=r[:2], model=e[:2], features=sorted(feats))))
     for kf, cid in sorted(seen_known.items()):
         ctx.known(kf, "%s (e.g. case %s)" % (known[kf]["signature"], cid))
-    ctx.cov["evaluations"] = st["pairs"] + st["tie"]
+    ctx.cov["evaluations"] = st["pairs"] + st["tie"] + st["pretouch_pairs"]
     ctx.cov["distinct_nontrivial"] = len(distinct)
     ctx.cov["rule"] = ("witness corpus then seeded random (type, value) cases, each under the std word and random 9-bit option words, run in a JIT and an "
                        "interpreter process; distinct = distinct (type size, value size, option word, output prefix) with a non-scalar type or value")
